@@ -2,6 +2,9 @@
   C08 — A type's schema is a correct, self-contained description of its wire format.
 -/
 import BorshModel.SchemaOf
+import BorshModel.Lemmas.Describes
+import BorshModel.Lemmas.SchemaBound
+import BorshModel.Theorems.C01
 namespace Borsh
 
 /-- primitive widths in the schema equal the encoder's widths, for every integer kind -/
@@ -80,6 +83,47 @@ theorem C08_F8_same_name_witness :
      (match schemaOf (Ty.tuple [xa, xb]) with
       | .panic .assertRedefinition => true
       | _ => false)) = true := by
+  decide +kernel
+
+/-- **The schema alone describes the wire format**: if every declaration the type refers to is
+bound in the container the way the schema impls and the derive intend (`Bnd`), then a reader that
+knows only the container parses the encoding of *every* value of the type exactly to its end — same
+field order, same tags, same counts and widths.  Every shape that has a schema: built-ins, derived
+structs and enums with skipped fields and explicit discriminants, `IpAddr`. -/
+theorem C08_describes_of_bound (c : Container) (t : Ty) (hs : shapeOk t = true) (hw : WfTy t = true)
+    (hb : Bnd c t) (hd : c.decl = declOf t) (v : Val) (bs : Bytes)
+    (hv : HasTy t v = true) (he : toVec t v = .ok bs) : c.describes bs := by
+  obtain ⟨f, hf⟩ := describes_all c t hs hw hb
+  obtain ⟨hok, hbs⟩ := toVec_ok he
+  refine ⟨f, ?_⟩
+  have := hf f (Nat.le_refl f) v [] hv hok
+  rw [hd, ← hbs]
+  simpa using this
+
+/-- the container `for_type` builds binds every declaration as intended, for every composition of
+the built-in impls (no derive "already present" shortcut on the way — see finding F8 for what that
+shortcut can hide) -/
+theorem C08_builtin_bound (t : Ty) (hg : guardFree t = true) (c : Container)
+    (h : schemaOf t = .ok c) : Bnd c t ∧ c.decl = declOf t := by
+  unfold schemaOf at h
+  obtain ⟨m, h1, h2⟩ := Res.bind_eq_ok h
+  cases h2
+  obtain ⟨_, _, hb⟩ := adds_all t hg [] m List.Pairwise.nil h1
+  exact ⟨hb _, rfl⟩
+
+/-- **C08 for the built-in compositions**, end to end: the container generated for the type
+parses every encoding of every value of the type exactly -/
+theorem C08_builtin_describes (t : Ty) (hg : guardFree t = true) (hs : shapeOk t = true)
+    (hw : WfTy t = true) (c : Container) (h : schemaOf t = .ok c) (v : Val) (bs : Bytes)
+    (hv : HasTy t v = true) (he : toVec t v = .ok bs) : c.describes bs := by
+  obtain ⟨hb, hd⟩ := C08_builtin_bound t hg c h
+  exact C08_describes_of_bound c t hs hw hb hd v bs hv he
+
+/-- non-vacuity: `HashMap<String, Vec<Option<(u8, [u16; 2])>>>` meets the hypotheses -/
+example :
+    let t := Ty.map .hashMap (.str .string)
+      (.seq .vec (Ty.option (Ty.tuple [.int .u8, .array 2 (.int .u16)])))
+    (guardFree t && shapeOk t && WfTy t && (match schemaOf t with | .ok _ => true | _ => false)) = true := by
   decide +kernel
 
 end Borsh
